@@ -22,8 +22,12 @@ SeqEqBy(Eq(_, _), a, b) == Len(a) = Len(b) /\ \A j \in 1..Len(a) : Eq(a[j], b[j]
 LeafEq(a, b)  == /\ a.name = b.name /\ IntEq(a.n, b.n)
                  /\ Len(a.chain) = Len(b.chain)
                  /\ \A j \in 1..Len(a.chain) : a.chain[j].name = b.chain[j].name /\ IntEq(a.chain[j].n, b.chain[j].n)
+                 \* tags: an array of integers inside a leaf (which itself sits inside an array or a nested object)
+                 /\ a.tags.p = b.tags.p /\ (a.tags.p => SeqEqBy(IntEq, a.tags.v, b.tags.v))
 OptLeafEq(a, b) == a.p = b.p /\ (a.p => LeafEq(a.v, b.v))
-InnerEq(a, b) == a.label = b.label /\ a.flag = b.flag /\ OptLeafEq(a.leaf, b.leaf)
+\* items: an array of objects inside the nested object (containers inside containers: every kind inside every kind)
+InnerEq(a, b) == /\ a.label = b.label /\ a.flag = b.flag /\ OptLeafEq(a.leaf, b.leaf)
+                 /\ a.items.p = b.items.p /\ (a.items.p => SeqEqBy(LeafEq, a.items.v, b.items.v))
 
 \* field-wise agreement of the independent parse with the value
 IndFieldEq(k, a, b) ==
